@@ -34,6 +34,9 @@ type Spec struct {
 	Family string `json:"family"` // identical | renames | edits
 	Files  []File `json:"files"`
 	Comp   h.Comp `json:"comp"`
+	// SigFile: the old build's signature is read back from the signature stream that a previous diff
+	// (nothing -> old build) wrote, as butler does with a downloaded signature, instead of being computed
+	SigFile bool `json:"sig_file,omitempty"`
 }
 
 func oldContent(i int, f File) h.Content {
@@ -83,6 +86,9 @@ func check(s Spec) h.Result {
 	exp := map[string]expect{}
 	var cl []string
 	cl = append(cl, "family:"+s.Family)
+	if s.SigFile {
+		cl = append(cl, "old-signature:read-back-from-a-signature-stream")
+	}
 	for i, f := range s.Files {
 		old = append(old, h.Entry{Path: f.Path, Kind: h.KFile, C: oldContent(i, f)})
 		for j, to := range f.To {
@@ -115,7 +121,17 @@ func check(s Spec) h.Result {
 	if err := nw.Write(nd); err != nil {
 		return h.Result{Skip: "cannot write new tree"}
 	}
-	df, err := h.Diff(od, nd, s.Comp, nil)
+	var dopts *h.DiffOpts
+	if s.SigFile {
+		ed := filepath.Join(d, "empty")
+		os.MkdirAll(ed, 0o755)
+		prev, err := h.Diff(ed, od, s.Comp, nil)
+		if err != nil {
+			return h.Failf("diff nothing -> old build failed: %v", err)
+		}
+		dopts = &h.DiffOpts{TargetSig: prev.Sig}
+	}
+	df, err := h.Diff(od, nd, s.Comp, dopts)
 	if err != nil {
 		return h.Failf("diff failed: %v", err)
 	}
@@ -305,6 +321,7 @@ var prop = h.Prop[Spec]{
 				}
 			}
 		}
+		s.SigFile = rapid.IntRange(0, 3).Draw(t, "old-signature-from-stream") == 0
 		return s
 	},
 	Check: check,
